@@ -209,7 +209,18 @@ def run_case(case, ctx):
             if kind == "from_string":
                 return cls_.from_string(tuple(e[2]), Rcls, w=w(e[3]))
             if kind == "from_strings":
-                return cls_.from_strings([tuple(s) for s in e[2]], Rcls)
+                members = [tuple(s) for s in e[2]]
+                form = ["list", "tuple", "generator", "iterator", "set"][len(repr(e)) % 5]
+                ctx.shape[f"from_strings:{form}"] += 1
+                if form == "tuple":
+                    return cls_.from_strings(tuple(members), Rcls)
+                if form == "generator":
+                    return cls_.from_strings((m for m in members), Rcls)
+                if form == "iterator":
+                    return cls_.from_strings(iter(members), Rcls)
+                if form == "set":
+                    return cls_.from_strings(set(members), Rcls)
+                return cls_.from_strings(members, Rcls)
         if k == "+":
             return build(e[1]) + build(e[2])
         if k == "*":
